@@ -37,6 +37,16 @@ def run_api(ctx, n_offs, n_iter):
     return dis
 
 
+def program_multibunch(ctx):
+    """(family scaling) several bunches without impedance and without the Fokker-Planck term: main() then runs Identity
+    maps in both places; every bunch's squared length/spread must follow the kick-drift recurrence with angle 2 pi/N
+    (a centred Gaussian is all main() offers as a multi-bunch start, so the rotation is observed through the second
+    moments of an unmatched round start; lib/scaling_cases.py)"""
+    import scaling_cases as sc
+    tg = ctx.build(harness=("impl_rf", "h5cat"), want_binary=True)
+    sc.run_moments(ctx, tg, sc.c03_multibunch_cases(ctx, 3 if ctx.quick() else 12), dict(kind="rf", stage="program"))
+
+
 def run_program(ctx, nruns):
     """program level (thorough): the inovesa binary without impedance and damping, one period,
     /BunchPosition/data and /EnergyAverage/data of every step vs M^k c0 (model, dyadic orbit).
@@ -52,6 +62,8 @@ def run_program(ctx, nruns):
         steps = rng.choice([24, 30, 40, 60, 80, 100])
         it = rng.choice([3, 4])
         sx, sy = rng.randint(-6, 6) / 2.0, rng.randint(-6, 6) / 2.0
+        if sx == sy:
+            sy = sx - 1.5 if sx > 0 else sx + 2.5          # the two axes always carry different shifts
         cx, cy = 31.5 + sx + rng.uniform(-9, 9), 31.5 + sy + rng.uniform(-9, 9)
         sg = rng.uniform(2.0, 3.0)
         dl = pq / (n - 1)
@@ -135,9 +147,11 @@ def run(ctx):
     coq = vp_coq.full_check("C03", ctx, fams=("rf",))
     if ctx.quick():
         dis = run_api(ctx, 240, 90)
+        dis += run_program(ctx, 2)
     else:
         dis = run_api(ctx, 1200, 400)
         dis += run_program(ctx, 10)
+    program_multibunch(ctx)
     ctx.extra["correspondence_disagreements"] = len(dis)
     ctx.assumptions += ["exact-arithmetic model; float rounding is carried by tolerances derived from operation counts (lib/rf_cases.py: tol_orbit, compare_offs)",
                         "tan(angle), _bl2phase, the sine samples and the scale of axis 1 are taken from the implementation as exact dyadic numbers; "
@@ -147,4 +161,16 @@ def run(ctx):
 
 
 def replay(ctx, rp):
+    c = rp.get("case") or {}
+    if c.get("kind") == "program-moments":
+        import scaling_cases as sc, shutil
+        tg = ctx.build(harness=("impl_rf", "h5cat"), want_binary=True)
+        work = tempfile.mkdtemp(prefix="pmom-")
+        try:
+            sc.run_moments_case(ctx, tg, work, c, dict(kind="rf", stage="program"))
+        finally:
+            shutil.rmtree(work, ignore_errors=True)
+        ctx.case_done(("program-moments", "replay"), True)
+        ctx.rule = "replay of one recorded program-level case"
+        return
     run(ctx)
